@@ -227,7 +227,16 @@ def _roundtrip(spec: dict, tag: str, label: str, ctx: dict, feats: list[str], se
         counters["read_budget_exhausted(skipped)"] = 1
         return [], counters, False
     except Exception as e:  # noqa: BLE001
-        return [core.viol(f"file written by sbml.write cannot be read back [{label}]", None, error=f"{type(e).__name__}: {e}"[:300], **ctx)], counters, True
+        import traceback
+
+        mech = None
+        tb = traceback.format_exc()
+        if isinstance(e, RecursionError) and "sympy/functions/elementary/piecewise.py" in tb and "pysbml/transform/mathml2sympy.py" in tb:
+            # attribution: the file itself must mean what the model means (independent libsbml reading), so that only the reader is at fault
+            if _file_means_the_model(path, model, rng):
+                mech = "C08-sympy-piecewise-recursion-on-read"
+                counters["independent_reader_confirms_written_file"] = 1
+        return [core.viol(f"file written by sbml.write cannot be read back [{label}]", mech, error=f"{type(e).__name__}: {e}"[:300], **ctx)], counters, True
     finally:
         try:
             path.unlink()
@@ -296,6 +305,28 @@ def plain_names(spec: dict) -> dict:
     for old, new in mapping.items():
         text = text.replace(json.dumps(old), json.dumps(new))
     return json.loads(text)
+
+
+def _file_means_the_model(path, model, rng) -> bool:  # noqa: ANN001
+    """Derivatives prescribed by the written document (mon/sbml_interp, libsbml only) equal the model's at 3 states."""
+    try:
+        from mon.sbml_interp import Doc
+
+        doc = Doc(str(path))
+        names = model.get_variable_names()
+        if sorted(names) != sorted(k for k in doc.species if k not in doc.rules):
+            return False
+        if any(abs(doc.size_of(k) - 1.0) > 1e-12 for k in names):
+            return False
+        for _ in range(3):
+            st = {k: round(rng.uniform(0.3, 2.5), 3) for k in names}
+            want = model.get_right_hand_side(st, 0.0)
+            got = doc.rates(st, 0.0)
+            if any(not core.close(got[k], float(want[k]), 1e-9, 1e-12) for k in names):
+                return False
+        return True
+    except Exception:  # noqa: BLE001
+        return False
 
 
 def run_case(case: dict) -> dict:
